@@ -110,6 +110,43 @@ Theorem delegation_withdrawn_once id s s1 x :
     exists d1, get (dels s1) id = Some d1 /\ d_stake d1 = 0.
 Proof. exact (withdraw_delegation_pays_stake id s s1 x). Qed.
 
+(* ---- "each staker can withdraw, in total, exactly what they deposited": liveness is NOT a theorem, and fails in one case ----
+
+   The statement below (an active validation's scheduled exit block is always still ahead, i.e. every scheduled exit is executed
+   when its block comes) is FALSE for the faithful model and for builtin/staker (replayed on the real staker on every run:
+   corpus/C16/scheduled-exit-lost.json, known finding class custody:scheduled-exit-lost-when-housekeeping-fails):
+   if SyncPOS fails at the very block an exit is scheduled for, packer and validator skip that block's housekeeping; the exit map
+   is keyed by block and never consulted again; the validation stays active with its exit block set, cannot signal again and
+   its locked stake never reaches the cooldown / withdrawable buckets. *)
+Definition scheduled_exit_is_executed_statement : Prop :=
+  forall c d m ops a v b, let s := run c (init d m) ops in
+    getv s a = Some v -> v_status v = StatusActive -> v_exit v = Some b -> blk s < b.
+
+Definition lost_cfg : cfg := mkC 4 8 12 16 4 8 8 0 0.
+Definition lost_ops : list op :=
+  [OAddValidation 8191 65535 12 25000000] ++
+  map (fun i => OAddValidation (4096 + N.of_nat i) (61440 + N.of_nat i) 8 25000000) (seq 0 102) ++
+  repeat OBlock 5 ++ [OSignalExit 8191 65535] ++ map (fun i => OSetOnline (4096 + N.of_nat i) false) (seq 0 102) ++
+  repeat OBlock 11 ++ map (fun i => OSetOnline (4096 + N.of_nat i) true) (seq 0 10) ++ repeat OBlock 40.
+Example lost_fact :
+  (match getv (run lost_cfg (init 0 103) lost_ops) 8191 with Some v => (v_status v, v_exit v) | None => (0, None) end,
+   blk (run lost_cfg (init 0 103) lost_ops)) = ((StatusActive, Some 16), 56).
+Proof. vm_compute. reflexivity. Qed.
+Theorem scheduled_exit_is_executed_refuted : ~ scheduled_exit_is_executed_statement.
+Proof.
+  intros H. specialize (H lost_cfg 0 103 lost_ops 8191). cbv zeta in H. pose proof lost_fact as F.
+  remember (run lost_cfg (init 0 103) lost_ops) as s eqn:Es. clear Es.
+  destruct (getv s 8191) as [v|]; [|inversion F].
+  inversion F as [[E1 E2 E3]]. specialize (H v 16 eq_refl E1 E2). rewrite E3 in H. apply N.ltb_lt in H. vm_compute in H. discriminate.
+Qed.
+(* the stake is stuck: 40 blocks after the lost exit the validation still holds its 25M locked, signalling again reverts, a
+   withdrawal pays 0 *)
+Example lost_exit_is_stuck :
+  let s := run lost_cfg (init 0 103) lost_ops in
+  (blk s, held_by s 8191, answer lost_cfg s (OSignalExit 8191 65535), answer lost_cfg s (OWithdraw 8191 65535),
+   answer lost_cfg (run lost_cfg (init 0 103) (firstn 221 lost_ops)) OBlock) = (56, 25000000, (1, 0), (0, 0), (0, 6)).
+Proof. vm_compute. reflexivity. Qed.
+
 (* ---- non-vacuity: a history of two actors (deposit, failed and successful operations, a withdrawal while queued)
         satisfies the hypotheses of counters_sum_between_epochs from the initial state and moves money ---- *)
 Definition ex_cfg : cfg := mkC 4 8 12 16 4 8 8 0 0.
@@ -160,6 +197,7 @@ Print Assumptions custody_never_more_out_than_in.
 Print Assumptions custody_delegation.
 Print Assumptions custody_every_step.
 Print Assumptions second_withdraw_pays_nothing.
+Print Assumptions scheduled_exit_is_executed_refuted.
 Print Assumptions counters_sum_initial.
 Print Assumptions counters_sum_every_user_operation.
 Print Assumptions counters_sum_between_epochs.
